@@ -736,11 +736,15 @@ func c07Refused(r *core.Run, agentBin string, md *fakes.Metadata, ln c07Lane, li
 	up, ok := px.Wait(id, 15*time.Second)
 	// the agent must still be alive and still polling afterwards
 	n := px.Lists()
-	time.Sleep(150 * time.Millisecond)
+	// (a progress bound, not a deadline: a polling agent lists again within milliseconds; 150 ms was once used
+	// as the verdict here and misfired on a machine running twenty checks at once)
+	for d := time.Now().Add(10 * time.Second); time.Now().Before(d) && px.Lists() == n && agent.Alive(); {
+		time.Sleep(10 * time.Millisecond)
+	}
 	if !agent.Alive() {
 		r.Violate("C07:agent-terminated:"+ln.name+":backend/refused", "the agent exited after a request to an unreachable backend: "+core.Trunc(tail(agent.Log(), 800), 800), nil, nil)
 	} else if px.Lists() == n {
-		r.Violate("C07:agent-stopped-polling:"+ln.name+":backend/refused", "the agent stopped polling after a request to an unreachable backend", nil, nil)
+		r.Violate("C07:agent-stopped-polling:"+ln.name+":backend/refused", "the agent made no pending-list call for 10 s after a request to an unreachable backend", nil, nil)
 	}
 	for _, ex := range core.CrashMarkers(agent.LogPath) {
 		r.Violate(core.CrashSignature(ex), "agent crashed: "+ex, nil, nil)
